@@ -157,6 +157,25 @@ def hostile_frames(r, key, known_id, tier, count):
             m = json.loads(json.dumps(msg))
             m[1]["extra"] = 1
             frames.append((name + "+key", dumps(m)))
+    # correctly signed events with hostile payloads (they get past signature checks and
+    # reach storage, indexes and the live matching of other connections' subscriptions)
+    from .. import subm
+
+    hostile_tags = [[["p", ["nested"]]], [["p", 5]], [["e", None]], [["p", {"a": 1}]], [["t", 1.5]], [["p", True]], [["e", []]], [["p", "a"], ["p", ["a"]]],
+                    [["e", "x" * 5000]], [["p", "\x00"]], [["d"]], [["p"]], [["expiration", "abc"]], [["expiration", []]], [["delegation", "x", "y", "z"]],
+                    [["e", "zz"]], [["p", "a", ["third"]]], [["e", 2 ** 63]], [["e", -1]]]
+    for i, tags in enumerate(hostile_tags):
+        for kind in (1, 5, 30000):
+            ev = ref.make_event(key, kind=kind, created_at=gen.T0 + 50 + i, tags=tags, content="signed-hostile %d" % i)
+            try:
+                ev["id"] = subm.rapid_id(ev)
+                ev["sig"] = key.sign(bytes.fromhex(ev["id"]))
+            except Exception:
+                continue
+            frames.append(("signed:kind%d:tags=%s" % (kind, json.dumps(tags)[:40]), dumps(["EVENT", ev])))
+    for content in ("\x00", "x" * 200000, "\ud7ff\ue000", "\u2028\u2029"):
+        ev = ref.make_event(key, kind=1, created_at=gen.T0 + 90, content=content)
+        frames.append(("signed:content=%r" % content[:8], dumps(["EVENT", ev])))
     r.shuffle(frames)
     return frames
 
@@ -195,6 +214,8 @@ async def run_case(backend, cfgname, frames, counters, seed):
         await pub.cmd(["EVENT", known])
         neigh = rig.connect("neighbour", rate_limiter=limiter)
         await neigh.cmd(["REQ", "n", {"kinds": [1], "since": gen.T0 + 1000}])
+        # a second subscription whose tag conditions make live matching look INTO hostile events
+        await neigh.cmd(["REQ", "n2", {"#p": ["a", "b"]}, {"#e": ["x", "zz"], "kinds": [1, 5]}, {"#t": ["q"]}, {"#d": [""]}])
         await rig.quiesce()
         victim = rig.connect("v0", rate_limiter=limiter)
         nlive = 0
@@ -261,6 +282,10 @@ async def run_case(backend, cfgname, frames, counters, seed):
             m0 = rig.rec.n
             await pub.cmd(["EVENT", live])
             await rig.quiesce()
+            pub_ok = [f for _, f in R.ok_frames(pub, m0)]
+            if cfgname != "auth" and (not pub_ok or pub_ok[-1][2] is not True):
+                viols.append({"key": "other-connection-refused", "msg": "[%s/%s] after %s a valid EVENT from another connection was answered %s"
+                              % (backend, cfgname, [l for l, _ in sent][-3:], pub_ok[-1][2:] if pub_ok else None), "replay": rp})
             if neigh.exited or not any(isinstance(f, list) and len(f) > 2 and f[0] == "EVENT" and f[1] == "n" and f[2].get("id") == live["id"] for n, f in neigh.parsed_frames(m0)):
                 viols.append({"key": "neighbour-lost-push", "msg": "[%s/%s] after %s the neighbour connection (exited=%s) did not get a live push"
                               % (backend, cfgname, [l for l, _ in sent][-3:], neigh.exited), "replay": rp})
